@@ -180,6 +180,27 @@ def search(rep: C.Report, tier: str, broken):
         B = np.array([r.uniform(-1, 1) for _ in range(int(np.prod(shape)))]).reshape(shape)
         mk = lambda arr: Polynomial(arr.copy(), g, ("Array", "Cardinal", "Cardinal", "Cardinal"), ("Array", "z", "pz", "pp"), False)  # noqa: E731
         rep.case(key=("rank4", M, N))
+        # axis-wise application: the derivative along axis k of a rank-4 array is the 1-D derivative of every fibre along k
+        dirs = ("Array", "z", "pz", "pp")
+        for ax in (1, 2, 3):
+            try:
+                full = np.asarray(mk(A).derivative(ax).coefficients)
+            except Exception as ex:  # noqa: BLE001
+                viol(f"derivative along axis {ax} of a rank-4 polynomial raises {type(ex).__name__}",
+                     {"M": M, "N": N, "shape": shape, "axis": ax, "error": str(ex)[:200],
+                      "how": "Polynomial(A, grid, (Array,Cardinal,Cardinal,Cardinal), (Array,z,pz,pp), False).derivative(axis)"}, f"C16:rank4-derivative-raises:{ax}")
+                continue
+            fib = lambda v, d=dirs[ax]: np.asarray(Polynomial(np.array(v), g, "Cardinal", d, False).derivative(0).coefficients)  # noqa: E731
+            ref = np.apply_along_axis(fib, ax, A)
+            rep.count("rank-4 axis-wise derivative checks")
+            if full.shape != ref.shape or np.max(np.abs(full - ref)) > 1e-9 * (np.max(np.abs(ref)) + 1):
+                viol(f"derivative along axis {ax} of a rank-4 polynomial is not the 1-D derivative of each fibre (other axes disturbed)",
+                     {"M": M, "N": N, "shape": shape, "axis": ax, "got_shape": list(full.shape), "want_shape": list(ref.shape)}, f"C16:rank4-derivative:{ax}")
+        try:
+            mk(A).derivative(1).derivative(2), mk(A).derivative((1, 2))
+        except Exception as ex:  # noqa: BLE001
+            viol(f"multi-axis derivative raises {type(ex).__name__}", {"M": M, "N": N, "shape": shape, "error": str(ex)[:200]}, "C16:rank4-derivative-raises:multi")
+            continue
         d01 = mk(A).derivative(1).derivative(2).coefficients
         d10 = mk(A).derivative(2).derivative(1).coefficients
         d_both = mk(A).derivative((1, 2)).coefficients
